@@ -263,6 +263,8 @@ bool provider(const std::string &prop, const std::string &tier, const std::strin
     }
 
     // C01 / C02 / C03 share the lock-unlock program family
+    // two threads, one section each: the bound is beyond the number of possible preemptions, i.e. ALL schedules are explored
+    for (auto &v : sequences(2, {"R", "W"})) { Spec s = base; s.scripts = v; add(suite, s, 12, flavour); }
     for (auto &v : multisets(3, {"R", "W"})) { Spec s = base; s.scripts = v; add(suite, s, 3, flavour); }
     for (auto &v : multisets(4, {"R", "W"})) { Spec s = base; s.scripts = v; add(suite, s, thorough ? 3 : 2, flavour); }
     { Spec s = base; s.scripts = {"W", "R", "R", "W"}; add(suite, s, 2, flavour); }          // the batch-sibling pattern, in creation order
